@@ -544,3 +544,97 @@ fn c08_buffer_id_decode() {
     std::mem::forget(sq);
     std::mem::forget(rig.pool);
 }
+
+// ===========================================================================
+// C08 / C12: ReadBufPool::new (initial registration) and its Drop.
+// ===========================================================================
+
+fn page_size_model() -> usize {
+    4096
+}
+
+static mut POOL_REG_CALLS: crate::verif_stubs::V<u32> = crate::verif_stubs::V::new(0);
+static mut POOL_REG_OPS: crate::verif_stubs::V<[u32; 2]> = crate::verif_stubs::V::new([0; 2]);
+static mut POOL_REG_RING_ADDR: crate::verif_stubs::V<u64> = crate::verif_stubs::V::new(0);
+static mut POOL_REG_ENTRIES: crate::verif_stubs::V<u32> = crate::verif_stubs::V::new(0);
+static mut POOL_REG_BGID: crate::verif_stubs::V<[u16; 2]> = crate::verif_stubs::V::new([0xffff; 2]);
+static mut POOL_REG_FAILS: crate::verif_stubs::V<bool> = crate::verif_stubs::V::new(false);
+
+unsafe fn pool_register(_fd: libc::c_int, op: libc::c_uint, arg: *const libc::c_void, nr: libc::c_uint) -> libc::c_int {
+    unsafe {
+        let i = POOL_REG_CALLS.v as usize;
+        POOL_REG_CALLS.v = (i + 1) as u32;
+        let reg = &*arg.cast::<libc::io_uring_buf_reg>();
+        if i < 2 {
+            POOL_REG_OPS.v[i] = op;
+            POOL_REG_BGID.v[i] = reg.bgid;
+        }
+        assert!(nr == 1);
+        if op == libc::IORING_REGISTER_PBUF_RING {
+            POOL_REG_RING_ADDR.v = reg.ring_addr;
+            POOL_REG_ENTRIES.v = reg.ring_entries;
+            if POOL_REG_FAILS.v {
+                *libc::__errno_location() = libc::ENOMEM;
+                return -1;
+            }
+        }
+    }
+    0
+}
+
+//@ prop: C08 C12
+//@ tier: quick
+//@ what: ReadBufPool::new registers a buffer ring of pool_size entries under a fresh group id, then offers EVERY buffer exactly once: entry i = (base + i*buf_size, buf_size, bid i), tail = pool_size, tail mask = pool_size-1, buffer group = the registered id; dropping the pool unregisters exactly that group id and frees both allocations with the layouts they were allocated with (CBMC checks the deallocations); a refused registration returns the error and leaves nothing allocated or registered
+//@ bound: pool_size 2, buf_size symbolic in 1..=6 (incl. non powers of two); registration succeeds or fails (symbolic); page size 4096
+//@ encodes: io_uring::io::ReadBufPool::{new,ring_tail}; <io_uring::io::ReadBufPool as Drop>::drop; alloc_layout_ring; alloc_layout_buffers
+//@ stubs: io_uring::io::page_size (sysconf FFI) -> 4096; crate::lock -> try_lock model; <core::io::CustomOwner as Drop>::drop -> no-op
+#[kani::proof]
+#[kani::unwind(4)]
+#[kani::stub(super::page_size, page_size_model)]
+#[kani::stub(crate::lock, crate::verif_stubs::lock_model)]
+#[kani::stub(<core::io::CustomOwner as core::ops::Drop>::drop, crate::verif_stubs::custom_owner_drop_noop)]
+fn c08_pool_new_and_drop() {
+    let mut t = k::base_table();
+    t.io_uring_register = Some(pool_register);
+    k::install(t);
+    k::sq_set(0, 0);
+    let sq = SubmissionQueue(crate::io_uring::sq::verif_c04::submissions_in_place(2, false, false));
+    let buf_size: u32 = kani::any();
+    kani::assume(buf_size >= 1 && buf_size <= 6);
+    let fails: bool = kani::any();
+    unsafe {
+        POOL_REG_CALLS.v = 0;
+        POOL_REG_FAILS.v = fails;
+    }
+    let r = ReadBufPool::new(sq.clone(), 2, buf_size);
+    assert!(r.is_ok() == !fails);
+    unsafe {
+        assert!(POOL_REG_CALLS.v == 1 && POOL_REG_OPS.v[0] == libc::IORING_REGISTER_PBUF_RING && POOL_REG_ENTRIES.v == 2);
+    }
+    if let Ok(pool) = r {
+        unsafe {
+            assert!(pool.id == POOL_REG_BGID.v[0], "the pool's buffer group is the registered one");
+            assert!(pool.ring_addr as u64 == POOL_REG_RING_ADDR.v, "the ring the kernel was told about");
+        }
+        assert!(pool.pool_size == 2 && pool.buf_size == buf_size && pool.tail_mask == 1);
+        let ring = pool.ring_addr.cast::<u8>();
+        let entry = |i: usize| unsafe {
+            let e = ring.add(i * 16);
+            (e.cast::<u64>().read(), e.add(8).cast::<u32>().read(), e.add(12).cast::<u16>().read())
+        };
+        let e0 = entry(0);
+        let e1 = entry(1);
+        assert!(e0.0 == pool.bufs_addr as u64 && e0.1 == buf_size && e0.2 == 0, "buffer 0 offered under id 0");
+        assert!(e1.0 == pool.bufs_addr as u64 + u64::from(buf_size) && e1.1 == buf_size && e1.2 == 1, "buffer 1 offered under id 1");
+        // the 16-bit tail shares the last two bytes of entry 0 (io_uring_buf_ring ABI)
+        assert!(unsafe { ring.add(14).cast::<u16>().read() } == 2, "tail = pool size: every buffer offered once");
+        let id = pool.id;
+        drop(pool);
+        unsafe {
+            assert!(POOL_REG_CALLS.v == 2 && POOL_REG_OPS.v[1] == libc::IORING_UNREGISTER_PBUF_RING && POOL_REG_BGID.v[1] == id, "dropping unregisters exactly this group");
+        }
+    }
+    kani::cover!(!fails && buf_size == 3);
+    kani::cover!(fails);
+    std::mem::forget(sq);
+}
